@@ -51,6 +51,7 @@ def check_c03(case, stats=None, conservation=False):
     reg = {}            # (module, kind, key) -> dict(flags, ud, since, fired)
     ever = {}           # (module, kind, key) -> set of ud tokens ever registered
     subs_ud = {}        # module -> set of ud tokens of its subscriptions ever made
+    oneshot_subs, oneshot_fired = {}, {}
     calls = {}
     loop_calls = []     # stack of open loop/dispatch calls
     quits = []          # (index, code) accepted quits
@@ -125,6 +126,9 @@ def check_c03(case, stats=None, conservation=False):
                 reg.pop((sl[0], DEREG_OF[c.op], _key_of(c.op, c.args)), None)
             if c.op == "sub" and ok and sl:
                 subs_ud.setdefault(sl[0], set()).add(c.args[3])
+                if (c.args[2] & SRC_ONESHOT) and c.args[3] != 0:
+                    # the token identifies this subscription; every accepted call may arm it (again) once
+                    oneshot_subs[(sl[0], c.args[3])] = oneshot_subs.get((sl[0], c.args[3]), 0) + 1
             if c.op == "fd_write" and ok:
                 writes.setdefault(c.args[0], []).append(c.i)
             if c.op == "ctx_quit" and ok and executed(r):
@@ -183,6 +187,12 @@ def check_c03(case, stats=None, conservation=False):
         elif r.k == "V" and r.kind == "ps" and not unstash:
             ud = int(r.fields.get("ud", "0"))
             topic = r.fields.get("topic", "-1:-").split(":", 1)[1]
+            if topic != "-" and (r.slot, ud) in oneshot_subs:
+                oneshot_fired[(r.slot, ud)] = oneshot_fired.get((r.slot, ud), 0) + 1
+                if stats is not None:
+                    stats["oneshot_subscription_deliveries"] = stats.get("oneshot_subscription_deliveries", 0) + 1
+                if oneshot_fired[(r.slot, ud)] > oneshot_subs[(r.slot, ud)]:
+                    bad("oneshot-fired-twice", "module %d received message #%d through its one-shot subscription (user data token %d) which was armed %d time(s): a one-shot source fires at most once" % (r.slot, oneshot_fired[(r.slot, ud)], ud, oneshot_subs[(r.slot, ud)]), r)
             if topic == "-" and ud != 0:
                 bad("wrong-userdata", "module %d received a told/broadcast message carrying user data token %d (no subscription involved)" % (r.slot, ud), r)
             if topic != "-" and ud != 0 and ud not in subs_ud.get(r.slot, ()):
